@@ -65,6 +65,13 @@ J gen_nest(const std::string& prop, uint64_t run_seed, const std::string& tier) 
   switch (g.below(8)) { case 0: want = L > 1 ? L - 1 : 1; break; case 1: case 2: want = L; break; case 3: case 4: want = (uint64_t)L + 1; break; case 5: want = 4ull * L; break; case 6: want = g.range(1, 2ull * L + 2); break; default: want = (uint64_t)L + g.below(4); }
   uint64_t depth = want > leaf_levels ? want - leaf_levels : (leaf_levels ? 0 : 1);
   plan.set("depth", depth);
+  // zig-zag: before the chain proper, nest `a` indefinite arrays deep, come back up to `b` open levels, and only then go down to the
+  // target depth - a decoder whose bookkeeping shrinks or rebalances on the way up must still enforce the limit afterwards
+  if (g.chance(1, 3)) {
+    uint64_t a = g.chance(1, 2) ? g.range(2, std::max<uint64_t>(2, std::min<uint64_t>(L, 80))) : g.range(2, std::max<uint64_t>(2, L));
+    uint64_t b = 1 + (g.chance(1, 2) ? g.below(a / 4 + 1) : g.below(a)); if (b >= a) b = a - 1;   // at least one level stays open, or the prefix would be a complete item
+    J z = J::arr(); z.push(a); z.push(b); plan.set("zig", z);
+  }
   // fragments
   J cuts = J::arr(); unsigned nf = (unsigned)net.below(6); for (unsigned i = 0; i < nf; i++) cuts.push(net.range(1, 3 * depth + 4)); plan.set("cuts", cuts);
   if (net.chance(1, 6)) plan.set("close", net.below(4 * depth + 6));
@@ -78,7 +85,15 @@ void exec_nest(const J& plan) {
   if (kinds.empty()) kinds.push_back(0);
   uint64_t depth = plan.getu("depth", 1); if (depth > 40000) depth = 40000;
   unsigned leaf_kind = (unsigned)plan.getu("leaf");
-  std::vector<uint8_t> stream; unsigned levels = 0; nest_chain(kinds, (size_t)depth, leaf_kind, stream, &levels);
+  std::vector<uint8_t> stream; unsigned levels = 0;
+  uint64_t zig_a = plan.at("zig").iu(0), zig_b = plan.at("zig").iu(1);
+  if (zig_a > 1 && zig_a <= L && zig_b >= 1 && zig_b < zig_a && depth > zig_b) {
+    // 9f x a, ff x (a-b): b indefinite arrays stay open, each already holding one finished child; then the rest of the chain below them
+    stream.insert(stream.end(), (size_t)zig_a, 0x9f); stream.insert(stream.end(), (size_t)(zig_a - zig_b), 0xff);
+    std::vector<uint8_t> rest; unsigned rl = 0; nest_chain(kinds, (size_t)(depth - zig_b), leaf_kind, rest, &rl);
+    stream.insert(stream.end(), rest.begin(), rest.end()); stream.insert(stream.end(), (size_t)zig_b, 0xff);
+    levels = (unsigned)zig_b + rl;
+  } else nest_chain(kinds, (size_t)depth, leaf_kind, stream, &levels);
   // --- calibration: the same kinds nested exactly as deep as the limit allows, on a generous stack: how much native stack does the accepted pipeline use on this build?
   unsigned leaf_levels = levels - (unsigned)depth;
   size_t cal_depth = L > leaf_levels ? L - leaf_levels : 0;
